@@ -15,6 +15,7 @@ import (
 	"net/url"
 	"os"
 	"path/filepath"
+	"time"
 
 	"github.com/folbricht/desync"
 
@@ -177,6 +178,25 @@ func main() {
 	if err != nil {
 		panic(err)
 	}
+	// the same handler behind a front that fails the first attempt of every upload after reading its body: the client's retry
+	// has to send the index again, complete
+	flakyFirst := map[string]bool{}
+	flaky := httptest.NewServer(http.HandlerFunc(func(rw http.ResponseWriter, rq *http.Request) {
+		if rq.Method == "PUT" && !flakyFirst[rq.URL.Path] {
+			flakyFirst[rq.URL.Path] = true
+			io.Copy(io.Discard, rq.Body)
+			http.Error(rw, "try again", http.StatusServiceUnavailable)
+			return
+		}
+		delete(flakyFirst, rq.URL.Path)
+		desync.NewHTTPIndexHandler(lis, true, "").ServeHTTP(rw, rq)
+	}))
+	defer flaky.Close()
+	fu, _ := url.Parse(flaky.URL + "/")
+	risRetry, err := desync.NewRemoteHTTPIndexStore(fu, desync.StoreOptions{ErrorRetry: 2, ErrorRetryBaseInterval: time.Nanosecond})
+	if err != nil {
+		panic(err)
+	}
 	decode := func(b []byte, digest512 bool, via string) {
 		if digest512 {
 			desync.Digest = desync.SHA512256{}
@@ -247,6 +267,14 @@ func main() {
 			if err := lis.StoreIndex("stored.caibx", ix); err == nil {
 				fb, _ := os.ReadFile(filepath.Join(*dir, "stored.caibx"))
 				w.Emit(trace.M("ev", "enc", "index", indexJ(ix), "tokens", tokenise(fb)))
+			}
+			os.Remove(filepath.Join(*dir, "retried.caibx"))
+			if err := risRetry.StoreIndex("retried.caibx", ix); err == nil {
+				fb, _ := os.ReadFile(filepath.Join(*dir, "retried.caibx"))
+				w.Emit(trace.M("ev", "enc", "index", indexJ(ix), "tokens", tokenise(fb)))
+			} else {
+				// one transient failure is within the budget: the upload has to succeed
+				w.Emit(trace.M("ev", "enc", "index", indexJ(ix), "tokens", []J{}))
 			}
 			if req, e := http.NewRequest("PUT", srv.URL+"/reput.caibx", bytes.NewReader(b)); e == nil {
 				if resp, e := http.DefaultClient.Do(req); e == nil {
